@@ -128,7 +128,11 @@ func (d *jsonDecoder) cutFieldsBySize(data []byte) []byte {
 	slices.SortFunc(d.cutPositions, func(p1, p2 jsonCutPos) int {
 		return p2.start - p1.start
 	})
-	for _, p := range d.cutPositions {
+	for i, p := range d.cutPositions {
+		// two paths may name the same string (a and \a, o.f and o.\f): it is cut once, by the smallest limit
+		if i+1 < len(d.cutPositions) && d.cutPositions[i+1].end == p.end {
+			continue
+		}
 		data = append(data[:p.start], data[p.end+1:]...)
 	}
 
